@@ -23,17 +23,18 @@ import (
 type c11Case struct {
 	Stage string `json:"stage"` // "pairs", "single", "meta", "e2e"
 	// pairs: block of interior pixels over the value alphabet; Index selects the file (chunk of the pair sequence)
-	Block  int `json:"block_pixels,omitempty"`
-	Chunk  int `json:"chunk,omitempty"`
+	Block int `json:"block_pixels,omitempty"`
+	Chunk int `json:"chunk,omitempty"`
 	// single
-	X, Y   int    `json:"x,omitempty"`
-	Yy     int    `json:"-"`
-	Pos    int    `json:"pos,omitempty"`
-	Val    uint16 `json:"val,omitempty"`
+	X, Y int    `json:"x,omitempty"`
+	Yy   int    `json:"-"`
+	Pos  int    `json:"pos,omitempty"`
+	Val  uint16 `json:"val,omitempty"`
 	// meta
 	Meta *c11Meta `json:"meta,omitempty"`
 	// e2e
 	S     *e2eSettings `json:"settings,omitempty"`
+	S0    *e2eSettings `json:"first_connection_settings,omitempty"` // "reconnect" stage: an earlier connection on the same daemon
 	Burst [2]int       `json:"motion_burst,omitempty"`
 	N     int          `json:"frames,omitempty"`
 }
@@ -284,7 +285,16 @@ func (c c11Case) e2eItems() []e2eItem {
 	var items []e2eItem
 	level := uint16(2000)
 	for n := 1; n <= c.N; n++ {
-		if n >= c.Burst[0] && n < c.Burst[1] {
+		in := n >= c.Burst[0] && n < c.Burst[1]
+		switch {
+		case s.ModelMotionDefaults:
+			// the camera-model defaults compare with a frame 45 frames back and need consecutive motion
+			// frames: a warm object that stays for the whole burst
+			level = 2000
+			if in {
+				level = 3000
+			}
+		case in:
 			if level == 2000 {
 				level = 3000
 			} else {
@@ -317,8 +327,27 @@ func runC11E2E(c c11Case) (string, string, int) {
 	return "", "", nrec
 }
 
+// runC11Reconnect: the camera reconnects to the same daemon instance as another model; the second
+// connection's files must be shaped by the second model's motion defaults.
+func runC11Reconnect(c c11Case) (string, string) {
+	s1, s2 := *c.S0, *c.S
+	c1 := c
+	c1.S = &s1
+	res := runHandleConnTwice(s1, s2, s1.stream(c1.e2eItems()), s2.stream(c.e2eItems()))
+	defer os.RemoveAll(res.dir)
+	if res.err != io.EOF {
+		return "C11:reconnect:connection-end", fmt.Sprintf("%v", res.err)
+	}
+	if sig, msg := s2.compareWithReference(res, s2.reference(c.e2eItems())); sig != "" {
+		return "C11:reconnect:" + sig, fmt.Sprintf("camera reconnected as %s after a %s connection on the same daemon: %s", s2.Model, s1.Model, msg)
+	}
+	return "", ""
+}
+
 func runC11(c c11Case) (string, string) {
 	switch c.Stage {
+	case "reconnect":
+		return runC11Reconnect(c)
 	case "pairs":
 		sig, msg, _ := runC11Pairs(c)
 		return sig, msg
@@ -519,6 +548,7 @@ func TestVerifC11(t *testing.T) {
 		combos = few
 	}
 	recs := 0
+	recsPerModel := map[string]int{}
 	for i := range combos {
 		s := combos[i]
 		c := c11Case{Stage: "e2e", S: &s, N: 40, Burst: [2]int{8, 26}}
@@ -528,6 +558,7 @@ func TestVerifC11(t *testing.T) {
 		}
 		sig, msg, n := runC11E2E(c)
 		recs += n
+		recsPerModel[s.Model] += n
 		w.Evaluations++
 		w.Nontrivial++
 		w.States++
@@ -538,9 +569,29 @@ func TestVerifC11(t *testing.T) {
 			w.Sample(map[string]interface{}{"stage": "e2e", "settings": s, "frames": c.N, "motion_burst": c.Burst, "motion_recordings_predicted": n})
 		}
 	}
+	// (b2) reconnect as a different camera model on the same daemon instance
+	mkS := func(model string) e2eSettings {
+		s := e2eSettings{Model: model, ResX: 160, ResY: 120, FPS: 9, Serial: 7, Firmware: "2.0.1", Min: 1, Max: 2, Preview: 1, Trigger: -1, BucketSecs: 4, DeviceName: "e2e-dev", DeviceID: 31, ModelMotionDefaults: true}
+		if model == "boson" {
+			s.ResX, s.ResY = 16, 12
+		}
+		return s
+	}
+	for _, pair := range [][2]string{{"lepton3", "lepton3.5"}, {"lepton3.5", "lepton3"}, {"boson", "lepton3.5"}, {"lepton3", "lepton3"}} {
+		s1, s2 := mkS(pair[0]), mkS(pair[1])
+		c := c11Case{Stage: "reconnect", S0: &s1, S: &s2, N: 30, Burst: [2]int{5, 16}}
+		sig, msg := runC11Reconnect(c)
+		w.Evaluations++
+		w.Nontrivial++
+		w.States++
+		w.Transitions += 60
+		w.Outcome(ev.Hash("reconnect", pair, sig))
+		viol(c, sig, msg)
+	}
 	r.Bounds["e2e_setting_combinations"] = len(combos)
 	r.Extra["e2e_motion_recordings_compared"] = recs
-	r.Rule = "(a) recorder level, real CPTVFileRecorder -> go-cptv writer -> standard reader: every ordered pair of images over a block of 2 (quick) / 4 (thorough) interior pixels x values {1,255,256,32767,32768,65535} as consecutive frames (inter-frame delta coding), every pixel position x value on 8x6 (and sampled positions on 160x120), telemetry words / temperatures / threshold / preview / fps / ids / strings of length 0,1,255 and YAML-hostile content / location components 0, +, -, unset, one field at a time; (b) end to end: generated config.toml (min/max/preview secs, trigger frames, throttling on/off, camera model lepton3 / lepton3.5 with model motion defaults / boson, continuous recorder on/off) parsed by the real ParseConfig, socket bytes served to the real handleConn, every finished file compared (frames, background, threshold, header incl. motion YAML) with the recordings predicted by driving a real MotionProcessor wired by the harness from the same settings. Non-trivial = every case."
+	r.Extra["e2e_motion_recordings_per_model"] = recsPerModel
+	r.Rule = "(a) recorder level, real CPTVFileRecorder -> go-cptv writer -> standard reader: every ordered pair of images over a block of 2 (quick) / 4 (thorough) interior pixels x values {1,255,256,32767,32768,65535} as consecutive frames (inter-frame delta coding), every pixel position x value on 8x6 (and sampled positions on 160x120), telemetry words / temperatures / threshold / preview / fps / ids / strings of length 0,1,255 and YAML-hostile content / location components 0, +, -, unset, one field at a time; (b) end to end: generated config.toml (min/max/preview secs, trigger frames, throttling on/off, camera model lepton3 / lepton3.5 with model motion defaults / boson, continuous recorder on/off) parsed by the real ParseConfig, socket bytes served to the real handleConn, every finished file compared (frames, background, threshold, header incl. motion YAML) with the recordings predicted by driving a real MotionProcessor wired by the harness from the same settings; plus the camera reconnecting to the same daemon instance as another model (lepton3 <-> lepton3.5, boson -> lepton3.5): the second connection's files must follow the second model's defaults. Non-trivial = every case."
 	r.Assumptions = []string{"data values outside the alphabets are not covered: universality over 16-bit data is not what state enumeration gives", "the reference side of (b) shares the motion processor, detector, throttle and parsers with the daemon (they are decided by C01-C09/C13); what is compared is main.go/config.go wiring and the file recorder", "NewThrottledRecorder uses the real clock: min-refill 24 h makes its contribution < 1 token"}
 	finish(t, r)
 }
